@@ -59,6 +59,10 @@ def _w(prop):
             (5, "subslot", dict(res_choices=RES_ALL, subslot=True, nres=(1, 3), ntasks=(2, 9), tz=False, limits=False, crossmid=False,
                                 contention=True, weeks=(1, 3), alts=True, effs=[1.0, 0.5, 0.8, 0.9, 1.25, 2.0, 0.7]), False),
             (3, "core", dict(core=True, subslot=False, res_choices=(60, 30, 15), nres=(1, 3), ntasks=(3, 9), contention=True, alts=True), True),
+            # teams under limits of every scope (resource, group, task, enclosing container): a team is booked for the same
+            # instants or not at all, whatever a limit leaves over (seeded change C03-d)
+            (2, "teams-under-limits", dict(res_choices=(60, 30), subslot=False, nres=(2, 4), ntasks=(3, 9), tz=False, limits=True, tasklimits=True,
+                                           crossmid=False, contention=True, weeks=(1, 3), max_depth=3, leaves=False), False),
         ]
     if prop == "C04":
         return [
@@ -136,6 +140,16 @@ def make_case(rnd, prop):
             # inline copies of a shift must stay in sync with the (possibly rewritten) shift
         return name, m, mfree
     m = gen.gen(rnd, **kw)
+    if prop == "C03" and name == "teams-under-limits" and len(m["resources"]) >= 2:
+        ids = [r["id"] for r in m["resources"]]
+        for t in m["tasks"]:
+            if "effort_min" in t and len(t.get("alloc", [])) == 1 and not t.get("alt") and rnd.random() < 0.5:
+                t["alloc"] = t["alloc"] + [rnd.choice([x for x in ids if x != t["alloc"][0]])]
+        tm_ = gen.tmap(m)
+        for t in m["tasks"]:
+            if t["container"] and "limits" not in t and rnd.random() < 0.5:
+                t["limits"] = {rnd.choice(["dailymax", "weeklymax"]): rnd.choice([2, 3, 4, 5])}   # the limit sits on the container, the teams below it
+        gen.equalize_teams(m)
     if prop == "C10":
         # shapes aimed at "containers and resource groups never occupy resource time"
         if m.get("groups") and rnd.random() < 0.35:
